@@ -113,7 +113,7 @@ def c19 (args res : List String) : Verdict :=
         let impl := s!"manager={get "manager"} held={get "held"} later={get "later"}"
         if model = impl then vOk tag else vDiff "respawn" model tag
     | _, _ => vBad (joinToks args)
-  | ["accept"] =>
+  | ["accept", variant] =>
     -- connections made *to* the real Session (its listener): nothing is written before the peer's handshake, a foreign
     -- info-hash is answered with nothing, a valid handshake with the client's own (BEP 3 layout from the wire model)
     let get (key : String) : String := (res.filterMap fun t => if t.startsWith (key ++ "=") then some ((t.drop (key.length + 1)).toString) else none).headD "?"
@@ -126,6 +126,10 @@ def c19 (args res : List String) : Verdict :=
         | none => "?"
       if !((get "plain").startsWith "pre0-") ∨ !((get "cand").startsWith "pre0-") then
         vProp "P08-incoming-connection-written-to-before-its-handshake" "accept"
+      else if variant = "u" then
+        -- MAX_NOT_INTERESTED connections without interest: the listener takes no more (whoever connects gets nothing)
+        if get "plain" ≠ "pre0-postx" ∨ get "cand" ≠ "pre0-postx" then vDiff "accept-beyond-the-limit" "pre0-postx" "accept-full"
+        else vOk "accept-full"
       else if get "plain" ≠ "pre0-postx" then vProp "P08-foreign-info-hash-answered" "accept"
       else if get "cand" ≠ expected then vDiff "accept-valid-handshake-reply" expected "accept"
       else vOk "accept"
